@@ -37,6 +37,27 @@ pub fn main(args: &[String]) {
     match args[0].as_str() {
         "render" => {
             for i in 0..n {
+                if i % 100 == 75 {
+                    // a TXT record whose RDATA has exactly the largest size an RDLENGTH can announce (and one octet less)
+                    for total in [65534usize, 65535] {
+                        let mut rd: Vec<u8> = Vec::new();
+                        let mut text = b"big.t. 5 IN TXT".to_vec();
+                        while rd.len() < total {
+                            let l = (total - rd.len() - 1).min(255);
+                            rd.push(l as u8);
+                            text.push(b' ');
+                            if r.gen_bool(0.5) { text.push(b'"'); }
+                            let quoted = *text.last().unwrap() == b'"';
+                            for k in 0..l { let c = b'a' + (k % 26) as u8; rd.push(c); text.push(c); }
+                            if quoted { text.push(b'"'); }
+                        }
+                        text.push(b'\n');
+                        let items = json!([{"k": "rec", "owner": {"form": "abs", "labels": [], "name": w("big.t.")}, "httl": true, "ttl": 5, "hclass": true, "class": 1,
+                                            "type": 16, "rdata": rd, "nl": 1}]);
+                        let parsed = parse_mem(&text);
+                        out.emit(json!({"ev": "File", "items": items, "parsed": parsed, "text": ""}));
+                    }
+                }
                 // one file in a hundred is large (40-90 KB)
                 let f = render_file(&mut r, &[], if i % 100 == 50 { 1 } else { 0 }, true);
                 let parsed = parse_mem(&f.text);
@@ -311,7 +332,8 @@ fn gen_rdata(r: &mut StdRng, eff_class: u16, pool: &[Labels], origin: &Option<La
 /// Renders one file. `includes`: (index, path text relative to this file) of files this one may include.
 /// `first`: the top file (starts with an empty context).
 pub fn render_file(r: &mut StdRng, includes: &[(usize, String)], depth_hint: usize, first: bool) -> Rendered {
-    let crlf = r.gen_bool(0.2);
+    // (big files: CRLF half of the time - their line ends are aligned with the parser's read buffer below)
+    let crlf = if depth_hint == 1 { r.gen_bool(0.5) } else { r.gen_bool(0.2) };
     let eol: &[u8] = if crlf { b"\r\n" } else { b"\n" };
     let mut text: Vec<u8> = Vec::new();
     let mut items: Vec<Value> = Vec::new();
@@ -486,6 +508,19 @@ pub fn render_file(r: &mut StdRng, includes: &[(usize, String)], depth_hint: usi
     if !crlf && r.gen_bool(0.15) && text.last() == Some(&b'\n') && !matches!(items.last().and_then(|i| i["k"].as_str()), Some("blank")) {
         text.pop();
     }
+    // a big CRLF file: shift everything by a leading comment line so that the CR of some line end is the last octet of the
+    // parser's first 16 KiB read (offset 16383) and its LF the first octet of the next one
+    if crlf && text.len() > 17000 {
+        if let Some(p) = (0..=16383usize.min(text.len() - 1)).rev().find(|&i| text[i] == b'\r' && 16383 - i >= 3 && text.get(i + 1) == Some(&b'\n')) {
+            let pad = 16383 - p;
+            let mut line = vec![b';'];
+            line.extend(std::iter::repeat(b'p').take(pad - 3));
+            line.extend_from_slice(b"\r\n");
+            line.extend_from_slice(&text);
+            text = line;
+            items.insert(0, json!({"k": "blank", "nl": 1}));
+        }
+    }
     Rendered { text, items }
 }
 
@@ -559,7 +594,9 @@ fn fuzz(r: &mut StdRng, n: usize, out: &mut Out) {
                 // structured: a record skeleton with generic RDATA of a known type and random hex (validity decided by the parser)
                 let ty = *[1u16, 2, 5, 6, 10, 11, 12, 13, 14, 15, 16, 28, 33, 41, 250, 99].choose(r).unwrap();
                 let class = *["IN", "CH", "HS", "CLASS9"].choose(r).unwrap();
-                let rd: Vec<u8> = match r.gen_range(0..4) {
+                let rd: Vec<u8> = match r.gen_range(0..5) {
+                    // a name, a 16-bit address and sometimes more (class CH type A takes exactly the first two)
+                    4 => { let mut v = w("lan.ch."); v.extend_from_slice(&[1, 1]); for _ in 0..r.gen_range(0..3) { v.push(7); } v }
                     0 => (0..r.gen_range(0..24)).map(|_| r.gen()).collect(),
                     1 => { let mut v = w("a.b."); if r.gen_bool(0.5) { v.extend_from_slice(&[0, 1]); } v }
                     2 => vec![1, 2, 3, 4],
@@ -568,6 +605,13 @@ fn fuzz(r: &mut StdRng, n: usize, out: &mut Out) {
                 let len = if r.gen_bool(0.85) { rd.len() } else { r.gen_range(0..30) };
                 let hex: String = rd.iter().map(|b| format!("{:02x}", b)).collect();
                 format!("x. 5 {} TYPE{} \\# {} {}\n", class, ty, len, hex).into_bytes()
+            }
+            7 if i % 2 == 0 => {
+                // a record line whose TTL / class / type field is valid UTF-8 but not ASCII (multi-octet characters at
+                // every offset of the field), or an ASCII near-miss of a mnemonic
+                let odd = ["abc\u{e9}", "ab\u{20ac}x", "a\u{1F600}1", "\u{e9}", "TYP\u{c9}1", "TYPE\u{661}", "CLAS\u{17f}1", "I\u{274}", "typ", "TYPE", "CLASS", "TYPE65536", "1\u{e9}"];
+                let f = |r: &mut StdRng| -> String { if r.gen_bool(0.6) { odd.choose(r).unwrap().to_string() } else { ["IN", "CH", "5", "A", "TXT", "TYPE1"].choose(r).unwrap().to_string() } };
+                format!("x. {} {} {} \\# 0\ny. 5 IN {} \\# 0\n", f(r), f(r), f(r), f(r)).into_bytes()
             }
             7 => {
                 // oversized fields
@@ -721,13 +765,22 @@ fn fs_trees(r: &mut StdRng, n: usize, out: &mut Out, scratch: &Path) {
         let root = tdir.join("p").join("q").join("r").join("s");
         let nfiles = r.gen_range(1..7usize);
         let dirs: Vec<String> = (0..nfiles).map(|i| if i == 0 { "top".into() } else { ["top", "top/sub", "top/sub/deeper", "x", "x/y"].choose(r).unwrap().to_string() }).collect();
-        let max_depth = r.gen_range(0..5usize);
+        // (now and then "no limit" spelled as a huge number: it behaves like any limit the tree does not reach)
+        let max_depth = if r.gen_bool(0.06) { *[usize::MAX, usize::MAX - 1, usize::MAX / 2, u32::MAX as usize].choose(r).unwrap() } else { r.gen_range(0..5usize) };
         let missing = r.gen_bool(0.1);
+        // a fifth of the trees: included files whose names are not UTF-8 (a Latin-1 e-acute), written with a decimal escape
+        let odd_names = r.gen_bool(0.2);
+        let disk_name = |j: usize| -> std::ffi::OsString {
+            use std::os::unix::ffi::OsStringExt;
+            if odd_names && j > 0 { let mut v = format!("f{}", j).into_bytes(); v.push(0xe9); v.extend_from_slice(b".zone"); std::ffi::OsString::from_vec(v) }
+            else { format!("f{}.zone", j).into() }
+        };
+        let text_name = |j: usize| -> String { if odd_names && j > 0 { format!("f{}\\233.zone", j) } else { format!("f{}.zone", j) } };
         // include plan: file i includes some later files (acyclic); each file is included at most once
         let mut incl: Vec<Vec<(usize, String)>> = vec![Vec::new(); nfiles];
         for j in 1..nfiles {
             let i = r.gen_range(0..j);
-            incl[i].push((j, rel_path(&dirs[i], &dirs[j], &format!("f{}.zone", j))));
+            incl[i].push((j, rel_path(&dirs[i], &dirs[j], &text_name(j))));
         }
         if missing {
             let i = r.gen_range(0..nfiles);
@@ -744,7 +797,7 @@ fn fs_trees(r: &mut StdRng, n: usize, out: &mut Out, scratch: &Path) {
         for i in 0..nfiles {
             let d = root.join(&dirs[i]);
             std::fs::create_dir_all(&d).unwrap();
-            let p = d.join(format!("f{}.zone", i));
+            let p = d.join(disk_name(i));
             std::fs::write(&p, &texts[i]).unwrap();
             canon.push(std::fs::canonicalize(&p).unwrap());
         }
@@ -754,7 +807,7 @@ fn fs_trees(r: &mut StdRng, n: usize, out: &mut Out, scratch: &Path) {
             for (j, path) in &incl[i] {
                 if *j >= nfiles { continue; }
                 for wrong in [root.join("top"), root.clone()] {
-                    let p = wrong.join(path);
+                    let p = wrong.join(Path::new(path).parent().unwrap_or(Path::new(""))).join(disk_name(*j));
                     if let Some(parent) = p.parent() { let _ = std::fs::create_dir_all(parent); }
                     let exists = p.exists();
                     if !exists { let _ = std::fs::write(&p, b"decoy.invalid. 1 IN A 6.6.6.6\n"); }
@@ -762,7 +815,7 @@ fn fs_trees(r: &mut StdRng, n: usize, out: &mut Out, scratch: &Path) {
             }
         }
         let got = parse_tree(&root.join("top").join("f0.zone"), max_depth, &canon);
-        out.emit(json!({"ev": "Tree", "files": files, "max_depth": max_depth, "got": got}));
+        out.emit(json!({"ev": "Tree", "files": files, "max_depth": max_depth.min(1000), "got": got}));
         let _ = std::fs::remove_dir_all(&tdir);
     }
     let _ = std::fs::remove_dir_all(&base);
